@@ -300,6 +300,7 @@ async fn prepare(req: &mut Request, ccx: &CallContext<'_>) -> S3Result<Prepare> 
 
                 decoded_uri_path,
                 vh_bucket,
+                is_bucket_post: req.method == Method::POST && matches!(s3_path, S3Path::Bucket { .. }),
 
                 content_length,
                 decoded_content_length,
